@@ -1,0 +1,76 @@
+//go:build verif
+
+// Verification hooks: exported wrappers around unexported decision functions.
+// Compiled only with `-tags verif`; add-only, no existing line is changed.
+package extendeddaemonset
+
+import (
+	"time"
+
+	"github.com/go-logr/logr"
+	metav1 "k8s.io/apimachinery/pkg/apis/meta/v1"
+	generator "k8s.io/kube-state-metrics/v2/pkg/metric_generator"
+	"sigs.k8s.io/controller-runtime/pkg/reconcile"
+
+	datadoghqv1alpha1 "github.com/DataDog/extendeddaemonset/api/v1alpha1"
+)
+
+// VerifSelectCurrentReplicaSet exposes selectCurrentReplicaSet.
+func VerifSelectCurrentReplicaSet(daemonset *datadoghqv1alpha1.ExtendedDaemonSet, activeRS, upToDateRS *datadoghqv1alpha1.ExtendedDaemonSetReplicaSet, now time.Time) (*datadoghqv1alpha1.ExtendedDaemonSetReplicaSet, time.Duration) {
+	return selectCurrentReplicaSet(daemonset, activeRS, upToDateRS, now)
+}
+
+// VerifNonCanaryState exposes nonCanaryState.
+func VerifNonCanaryState(annotations map[string]string) datadoghqv1alpha1.ExtendedDaemonSetStatusState {
+	return nonCanaryState(annotations)
+}
+
+// VerifIsCanaryActive exposes isCanaryActive.
+func VerifIsCanaryActive(daemonset *datadoghqv1alpha1.ExtendedDaemonSet, activeERSName string, upToDateERSName string, isCanaryFailed bool) bool {
+	return isCanaryActive(daemonset, activeERSName, upToDateERSName, isCanaryFailed)
+}
+
+// VerifManageCanaryStatusConditions exposes manageCanaryStatusConditions.
+func VerifManageCanaryStatusConditions(status *datadoghqv1alpha1.ExtendedDaemonSetStatus, now metav1.Time, isCanaryFailed bool, isCanaryPaused bool, pausedReason datadoghqv1alpha1.ExtendedDaemonSetStatusReason, ersName string) *datadoghqv1alpha1.ExtendedDaemonSetStatus {
+	return manageCanaryStatusConditions(status, now, isCanaryFailed, isCanaryPaused, pausedReason, ersName)
+}
+
+// VerifManageStatus exposes manageStatus.
+func VerifManageStatus(status *datadoghqv1alpha1.ExtendedDaemonSetStatus, upToDate *datadoghqv1alpha1.ExtendedDaemonSetReplicaSet, isCanaryActive bool, isCanaryFailed bool, isCanaryPaused bool, pausedReason datadoghqv1alpha1.ExtendedDaemonSetStatusReason, daemonset *datadoghqv1alpha1.ExtendedDaemonSet) *datadoghqv1alpha1.ExtendedDaemonSetStatus {
+	return manageStatus(status, upToDate, isCanaryActive, isCanaryFailed, isCanaryPaused, pausedReason, daemonset)
+}
+
+// VerifShouldDeleteERS exposes shouldDeleteERS.
+func VerifShouldDeleteERS(now time.Time, ers *datadoghqv1alpha1.ExtendedDaemonSetReplicaSet) bool {
+	return shouldDeleteERS(now, ers)
+}
+
+// VerifClearCanaryAnnotations exposes clearCanaryAnnotations.
+func VerifClearCanaryAnnotations(eds *datadoghqv1alpha1.ExtendedDaemonSet) bool {
+	return clearCanaryAnnotations(eds)
+}
+
+// VerifNewReplicaSetFromInstance exposes newReplicaSetFromInstance.
+func VerifNewReplicaSetFromInstance(daemonset *datadoghqv1alpha1.ExtendedDaemonSet) (*datadoghqv1alpha1.ExtendedDaemonSetReplicaSet, error) {
+	return newReplicaSetFromInstance(daemonset)
+}
+
+// VerifSelectNodes exposes (*Reconciler).selectNodes.
+func (r *Reconciler) VerifSelectNodes(logger logr.Logger, daemonset *datadoghqv1alpha1.ExtendedDaemonSet, daemonsetSpec *datadoghqv1alpha1.ExtendedDaemonSetSpec, replicaset *datadoghqv1alpha1.ExtendedDaemonSetReplicaSet, canaryStatus *datadoghqv1alpha1.ExtendedDaemonSetStatusCanary) error {
+	return r.selectNodes(logger, daemonset, daemonsetSpec, replicaset, canaryStatus)
+}
+
+// VerifUpdateInstanceWithCurrentRS exposes (*Reconciler).updateInstanceWithCurrentRS.
+func (r *Reconciler) VerifUpdateInstanceWithCurrentRS(logger logr.Logger, now time.Time, daemonset *datadoghqv1alpha1.ExtendedDaemonSet, current, upToDate *datadoghqv1alpha1.ExtendedDaemonSetReplicaSet, current32, ready32, available32 int32) (*datadoghqv1alpha1.ExtendedDaemonSet, reconcile.Result, error) {
+	return r.updateInstanceWithCurrentRS(logger, now, daemonset, current, upToDate, podsCounterType{Current: current32, Ready: ready32, Available: available32})
+}
+
+// VerifCleanupReplicaSet exposes (*Reconciler).cleanupReplicaSet.
+func (r *Reconciler) VerifCleanupReplicaSet(logger logr.Logger, now time.Time, rsList *datadoghqv1alpha1.ExtendedDaemonSetReplicaSetList, current, upToDate *datadoghqv1alpha1.ExtendedDaemonSetReplicaSet) error {
+	return r.cleanupReplicaSet(logger, now, rsList, current, upToDate)
+}
+
+// VerifGenerateMetricFamilies exposes generateMetricFamilies.
+func VerifGenerateMetricFamilies() []generator.FamilyGenerator {
+	return generateMetricFamilies()
+}
